@@ -181,6 +181,47 @@ def repeat(ctx, rng, idx):
     ctx.nontrivial("repeat", iname, cfl, N, s.desc())
 
 
+@group(quick=4, thorough=40)
+def repeat_large_implicit(ctx, rng, idx):
+    """the purity statements on implicit systems of 100-160 unknowns in the regime where the linear solve changes method from one
+    step to the next (LU element growth, finding D19: left-running wave, upwind-biased kappa scheme, CFL 5-10): which method solves a
+    step must depend on that step alone -- not on earlier steps, earlier solves or other solver objects of the same size"""
+    import flowdyn.mesh as fmesh_
+    import flowdyn.modelphy.convection as conv_
+    iname = ["implicit", "cranknicolson", "gear", "backwardeuler", "trapezoidal"][idx % 5]
+    n = int(rng.integers(100, 161)); cfl = float(rng.choice([5.0, 7.0, 10.0])); a = float(rng.choice([-1.0, -1.3]))
+    rname = str(rng.choice(["quick", "fromm", "extrapol3"]))
+    N = int(rng.integers(10, 31)); K = int(rng.integers(3, N - 2))
+    mesh = fmesh_.unimesh(ncell=n, length=1.0)
+    model = conv_.model(a)
+    disc = md.fvm(model, mesh, gen.recon(rname)[0])
+    f = ffield.fdata(model, mesh, [np.sin(2 * np.pi * mesh.centers()) + 0.3 * np.cos(6 * np.pi * mesh.centers())])
+    make = lambda: gen.integ(iname)(mesh, disc)
+    who = "gear" if iname == "gear" else "implicit"
+    ctx.describe(integrator=iname, cfl=cfl, ncell=n, convcoef=a, recon=rname, N=N, K=K)
+    S = make()
+    A, _, _ = _traj(S.solve, f, cfl, stop={"maxit": N})
+    if not all(np.all(np.isfinite(d)) for d in A[-1]["data"]):
+        raise core.Skip("nonfinite")
+    B, _, _ = _traj(S.solve, f, cfl, stop={"maxit": N})
+    ctx.true("repeat-same-object", _same(A[-1], B[-1]), "large-implicit/repeat/same-object/" + who, _diff(A[-1], B[-1]), cls="repeat-same-object")
+    C, _, _ = _traj(make().solve, f, cfl, stop={"maxit": N})
+    ctx.true("repeat-fresh-object", _same(A[-1], C[-1]), "large-implicit/repeat/fresh-object/" + who, _diff(A[-1], C[-1]), cls="repeat-fresh-object")
+    # N = K + (N - K) through restart on the same object
+    S2 = make()
+    mid = S2.solve(f, cfl, stop={"maxit": K})[-1]
+    D, _, _ = _traj(S2.restart, mid, cfl, stop={"maxit": N - K})
+    ctx.true("restart-same-object", _same(A[-1], D[-1]), "large-implicit/restart/same-object/" + who, _diff(A[-1], D[-1]), cls="restart-same-object")
+    # a requested state in between does not change where the run ends
+    tK = A[min(K, len(A) - 1)]["time"]; tN = A[-1]["time"]
+    if np.isfinite(tK) and np.isfinite(tN) and tK < tN:
+        E = make().solve(f, cfl, [0.5 * (tK + A[min(K, len(A) - 1) - 1]["time"]), tN], stop={"maxit": N + 5})
+        G = make().solve(f, cfl, [tN], stop={"maxit": N + 5})
+        ctx.true("extra-saves", np.array_equal(E[-1].data[0], G[-1].data[0]) and E[-1].time == G[-1].time, "large-implicit/extra-save-changes-the-final-state/" + who,
+                 {"max diff": float(np.max(np.abs(E[-1].data[0] - G[-1].data[0])))}, cls="extra-saves")
+    ctx.nontrivial("large-implicit", iname, n, cfl, a, rname, N)
+
+
 @group(quick=450, thorough=15000)
 def saves_and_monitors(ctx, rng, idx):
     """extra save times / monitors must not change the trajectory (compared state by state, bitwise)"""
@@ -317,6 +358,16 @@ def restart(ctx, rng, idx):
                         ctx.close("restart-other-cfl-linear", max(min(d["max data diff / max|q|"], d["max data diff / max|q(0)|"]), abs(d["dtime"]) / (abs(t7[-1]["time"]) + 1e-300)), 1e-4 * max(1.0, cfl) + 1e-6 * cond * M, "restart/other-cfl/state-depends-on-previous-call/implicit-linear", d, cls="restart-same-object")
             else:
                 ctx.true("restart-same-object", _same(t7[-1], t6[-1]), "restart/other-cfl/state-depends-on-previous-call/" + who, dict(_diff(t7[-1], t6[-1]), cfl_first=cfl, cfl_restart=cfl2), cls="restart-same-object")
+    # restart from a field that is NOT the state the object stopped at (another run's snapshot, a reloaded checkpoint, other data), on an
+    # object whose last run was watched by a residual monitor at every iteration == the same restart on a fresh object: nothing the
+    # monitors or the last step left on the object (a right-hand side "already evaluated") may enter the first step
+    if iname != "gear" and not (implicit and s.model.islinear):
+        other = ffield.fdata(s.model, s.mesh, [np.roll(np.array(d, copy=True), 1, axis=-1) for d in s.field.data], t=float(np.round(rng.uniform(-1, 2), 3)), it=int(rng.integers(0, 9)))
+        S8 = make(); S8.solve(s.field, cfl, stop={"maxit": N}, monitors={"residual": {"frequency": 1}} if rng.random() < 0.7 else dict(_monitors(rng, s.model)[0]))
+        t8, _, _ = _traj(S8.restart, other, cfl, stop={"maxit": M})
+        t9, _, _ = _traj(make().restart, other, cfl, stop={"maxit": M})
+        if all(np.all(np.isfinite(d)) for d in t8[-1]["data"] + t9[-1]["data"]):
+            ctx.true("restart-same-object", _same(t8[-1], t9[-1]), "restart/unrelated-field/state-depends-on-previous-monitored-run/" + who, _diff(t8[-1], t9[-1]), cls="restart-same-object")
     # a solve() after the restart starts counting from zero again (iteration tags, monitor records, totnit)
     mons2 = {k: {kk: vv for kk, vv in v.items() if kk != "output"} for k, v in mons.items()}
     t4, res4, log4 = _traj(S.solve, s.field, cfl, stop={"maxit": N}, monitors=mons2)
